@@ -155,6 +155,16 @@ func c08Setup(c *fw.Ctx, sha256fmt bool, maxCommits int) *c08Env {
 			x.h.commits[x.i] = id
 		}
 	}
+	// pack-objects does not look for deltas between objects that sit undeltified
+	// in the same existing pack: explode fast-import's pack into loose objects
+	// so that --window/--depth really decide the deltas.
+	fipacks, _ := filepath.Glob(filepath.Join(env.dir, "objects/pack/*.pack"))
+	if len(fipacks) != 1 {
+		fw.Abort("C08 set-up: expected one fast-import pack, found %d", len(fipacks))
+	}
+	g2, dir2 := c.InitRepo("c08loose-"+bFmtName(sha256fmt), bFmtName(sha256fmt), true)
+	g2.MustRunIn(bReadFile(fipacks[0]), "unpack-objects", "-q")
+	env.g, env.dir = g2, dir2
 	env.objs = map[string]bObj{}
 	for _, o := range env.g.CatFileAll() {
 		env.objs[o.ID] = bObj{o.Type, o.Data}
